@@ -1,9 +1,11 @@
 """C02 - results equal the sequential computation: value, order, exception."""
+from engines import realparts as rp
 from engines import simgen as g
 from engines.simprop import make_execute
 
 LEVEL = 'exploration'
-RULE = ('sim: E1 histories: functions from a family of pure module-level functions '
+RULE = ('real: all six entry points (apply, map, starmap, imap, imap_unordered, map_async) on real pools of 1-4 processes, n 0-14, chunksize None/1/2/3/5/20, raising positions; one pool per case. ' 
+        'sim: E1 histories: functions from a family of pure module-level functions '
         '(identity, affine, pair-returning, raising at a generated set of positions '
         'with 6 exception types incl. BaseException subclasses, two-argument '
         'functions for starmap), input length 0-12, chunksize None/1/2/3/5/14, pool '
@@ -17,7 +19,8 @@ ASSUMPTIONS = [
     'language rules',
     'real pools (all six entry points) are covered by part real',
 ]
-SHARDS = {'quick': 4, 'thorough': 16}
+SHARDS = {'quick': 8, 'thorough': 16}
+WALL_LIMIT = {'quick': 1500, 'thorough': 6 * 3600}
 
 
 def sim_cases():
@@ -45,9 +48,11 @@ def _nontrivial(labels, sim):
 
 
 execute_sim = make_execute({'c01', 'c02'}, _nontrivial, prop='C02')
-PARTS = {'sim': execute_sim}
-EXPLORE = {'sim': (sim_cases(), execute_sim)}
+PARTS = {'sim': execute_sim, 'real': rp.execute_c02}
+EXPLORE = {'sim': (sim_cases(), execute_sim), 'real': (rp.c02_cases(), rp.execute_c02)}
 
 
 def run(ctx):
-    ctx.explore('sim', sim_cases(), execute_sim, n=ctx.pick(500, 25000))
+    ctx.explore('sim', sim_cases(), execute_sim, n=ctx.pick(250, 25000))
+    ctx.explore('real', rp.c02_cases(), rp.execute_c02, n=ctx.pick(6, 150),
+                shrink_budget=6)
